@@ -348,75 +348,85 @@ def chaining(ctx):
         eg = [g for g in gs if g.op == 'Eq' and sides(g, 'p#3.epoch', 'p#2.epoch')]
         if not eg:
             continue
-        E = eg[0]
         for what, (field, nextkey) in specs.items():
-            same = [g for g in gs if g.op == 'Eq' and sides(g, 'p#3.' + field, 'p#2.' + field)]
-            if not same:
-                continue
-            inst = '%s: %s chaining' % (fn_short(f.name), what)
-            key = 'chaining:%s' % what
-            problems = []
-            S = same[0]
-            # 1. same-epoch comparison only under E.true
-            if S.bb in body.reach([0], removed=E.true_edges):
-                problems.append('the same-epoch comparison (line %d) is reachable when epochs differ' % S.line)
-            # 2. cross-epoch comparison only under E.false: comparisons against the next-key part
-            cross_sites = []
-            for g in f.family():
-                for gg in find_guards(g.body):
-                    if gg.op != 'Eq':
-                        continue
-                    og = gg.a_orig | gg.b_orig
-                    if has(og, 'p#2.' + field + '*') and (has(og, nextkey) or (g is not f and has(og, 'clarg#*'))):
-                        cross_sites.append((g, gg))
-            # the next-key lookup
-            look = [c for c in body.calls() if any(glob_match('*ProtocolMessage::get_message_part', n) for n in c.names())]
-            look = [c for c in look if has(fn_origins(f, c.args[1], True), nextkey) and has(fn_origins(f, c.args[0], True), 'p#3.protocol_message')]
-            if not look:
-                problems.append('no lookup of %s in previous_certificate.protocol_message' % nextkey)
-            else:
-                for c in look:
-                    if c.bb in body.reach([0], removed=E.false_edges):
-                        problems.append('the cross-epoch lookup (line %d) is reachable when epochs are equal' % c.line)
-            if not cross_sites:
-                problems.append('no comparison of the signed next value with certificate.%s' % field)
-            # 3. the validity value gates success, and all its definitions are those comparisons
-            v_locals = set()
-            for (l, p) in [(S_dest(body, S), 0)]:
-                if l is not None:
-                    v_locals.add(l)
-            from engine import track_result
-            vl = S_dest(body, S)
-            if vl is None:
-                problems.append('cannot locate the validity value')
-            else:
-                tr = track_result(body, vl, +1, 'bool')
-                if success_reachable(body, tr.success_edges, 'ok') or not tr.success_edges:
-                    problems.append('Ok is reachable without the validity value being true')
-                # all defs of locals the value flows through
-                chain = flow_chain(body, vl)
-                for l in chain:
-                    for (bi, si, pl, rv) in body.defs(l):
-                        if si == 't':
-                            c = rv
-                            nm = c.best()
-                            if not (glob_match('*PartialEq*::eq', nm) or glob_match('std::option::Option::is_some_and', nm)):
-                                problems.append('validity value defined by %s (line %d)' % (nm, c.line))
-                        else:
-                            k = rv[0]
-                            if k == 'use' and rv[1][0] == 'const':
-                                if rv[1][3] != 0:
-                                    problems.append('validity value assigned constant true')
-                            elif k in ('use', 'bin', 'un'):
-                                pass
+          # a body can hold several epoch tests (the chaining helpers spliced into a common caller): the one that governs THIS
+          # comparison is the one under whose true arm alone the same-epoch comparison is reachable
+          same0 = [g for g in gs if g.op == 'Eq' and sides(g, 'p#3.' + field, 'p#2.' + field)]
+          # a caller into which a chaining function was spliced is not itself the chaining function (that one is examined on its own)
+          own = getattr(f, '_orig', f)
+          if same0 and getattr(body.blocks[same0[0].bb], 'owner', own) not in (own, None) and \
+                  getattr(body.blocks[same0[0].bb], 'owner', own).root() is not own.root() and \
+                  getattr(body.blocks[same0[0].bb], 'owner').argc == 3:
+              continue
+          cands = [e for e in eg if same0 and same0[0].bb not in body.reach([0], removed=e.true_edges)] or eg[:1]
+          for E in cands[:1]:
+                same = [g for g in gs if g.op == 'Eq' and sides(g, 'p#3.' + field, 'p#2.' + field)]
+                if not same:
+                    continue
+                inst = '%s: %s chaining' % (fn_short(f.name), what)
+                key = 'chaining:%s' % what
+                problems = []
+                S = same[0]
+                # 1. same-epoch comparison only under E.true
+                if S.bb in body.reach([0], removed=E.true_edges):
+                    problems.append('the same-epoch comparison (line %d) is reachable when epochs differ' % S.line)
+                # 2. cross-epoch comparison only under E.false: comparisons against the next-key part
+                cross_sites = []
+                for g in f.family():
+                    for gg in find_guards(g.body):
+                        if gg.op != 'Eq':
+                            continue
+                        og = gg.a_orig | gg.b_orig
+                        if has(og, 'p#2.' + field + '*') and (has(og, nextkey) or (g is not f and has(og, 'clarg#*'))):
+                            cross_sites.append((g, gg))
+                # the next-key lookup
+                look = [c for c in body.calls() if any(glob_match('*ProtocolMessage::get_message_part', n) for n in c.names())]
+                look = [c for c in look if has(fn_origins(f, c.args[1], True), nextkey) and has(fn_origins(f, c.args[0], True), 'p#3.protocol_message')]
+                if not look:
+                    problems.append('no lookup of %s in previous_certificate.protocol_message' % nextkey)
+                else:
+                    for c in look:
+                        if c.bb in body.reach([0], removed=E.false_edges):
+                            problems.append('the cross-epoch lookup (line %d) is reachable when epochs are equal' % c.line)
+                if not cross_sites:
+                    problems.append('no comparison of the signed next value with certificate.%s' % field)
+                # 3. the validity value gates success, and all its definitions are those comparisons
+                v_locals = set()
+                for (l, p) in [(S_dest(body, S), 0)]:
+                    if l is not None:
+                        v_locals.add(l)
+                from engine import track_result
+                vl = S_dest(body, S)
+                if vl is None:
+                    problems.append('cannot locate the validity value')
+                else:
+                    tr = track_result(body, vl, +1, 'bool')
+                    if success_reachable(body, tr.success_edges, 'ok') or not tr.success_edges:
+                        problems.append('Ok is reachable without the validity value being true')
+                    # all defs of locals the value flows through
+                    chain = flow_chain(body, vl)
+                    for l in chain:
+                        for (bi, si, pl, rv) in body.defs(l):
+                            if si == 't':
+                                c = rv
+                                nm = c.best()
+                                if not (glob_match('*PartialEq*::eq', nm) or glob_match('std::option::Option::is_some_and', nm)):
+                                    problems.append('validity value defined by %s (line %d)' % (nm, c.line))
                             else:
-                                problems.append('validity value defined by %s' % k)
-            if problems:
-                R.violation('e', 'R6', inst, key, '; '.join(problems), f.loc())
-            else:
-                R.ok('e', 'R6', inst, 'epoch-equality guard L%d splits: same-epoch equality L%d; cross-epoch lookup of %s '
-                     'compared with certificate.%s (%d site(s)); validity gates Ok' % (E.line, S.line, nextkey, field, len(cross_sites)), f.loc())
-                out[what].append(f)
+                                k = rv[0]
+                                if k == 'use' and rv[1][0] == 'const':
+                                    if rv[1][3] != 0:
+                                        problems.append('validity value assigned constant true')
+                                elif k in ('use', 'bin', 'un'):
+                                    pass
+                                else:
+                                    problems.append('validity value defined by %s' % k)
+                if problems:
+                    R.violation('e', 'R6', inst, key, '; '.join(problems), f.loc())
+                else:
+                    R.ok('e', 'R6', inst, 'epoch-equality guard L%d splits: same-epoch equality L%d; cross-epoch lookup of %s '
+                         'compared with certificate.%s (%d site(s)); validity gates Ok' % (E.line, S.line, nextkey, field, len(cross_sites)), f.loc())
+                    out[what].append(f)
     return out
 
 
